@@ -15,6 +15,7 @@ CONSTANTS
   TreeStart = TRUE
   Ends = {0}
   Aheads = {0}
+  Lags = {0}
   MaxFaults = 2
   FaultBudgets = {2}
   MaxRestarts = 1
